@@ -90,11 +90,11 @@ REPLAY_PLANS = {
                   "thorough": [sim("U1", 800, 12, "Fam_C10", "NextSim_Resize"), sim("U4", 500, 12, "Fam_C10", "NextSim_Resize"),
                                sim("U2", 200, 12, "Fam_C10", "NextSim_Resize")]}),
     "C11": dict(
-        cover={"quick": [cov("U4", "U4_Scripts", "F_Op", 360, over={"PolGates": "None", "CompGates": "BS_Gates", "FockGates": "PS_Gates", "CustomOps2": "None", "CustomOps3": "None"}),
+        cover={"quick": [cov("U4", "U4_ScriptsBS", "F_Op", 360, over={"PolGates": "None", "CompGates": "BS_Gates", "FockGates": "PS_Gates", "CustomOps2": "None", "CustomOps3": "None"}),
                          cov("U2", "U2_ScriptsQ", "F_Op", 120),
                          cov("U4", "U4_MZI", "F_Measure", 160, init="U4_MZIInit", over=MZI_OVER)],
                "thorough": [cov("U4", "U4_Scripts", "F_Op", 3000), cov("U2", "U2_Scripts", "F_Op", 2000),
-                            cov("U4", "U4_MZI", "F_Measure", 4000, init="U4_MZIInit", over=MZI_OVER), cov("U4", "U4_Scripts", "F_Op", 2500, depth=2, over={"PolGates": "None", "CompGates": "BS_Gates", "FockGates": "PS_Gates", "CustomOps2": "None", "CustomOps3": "None", "Kraus1": "None", "Kraus2": "None"})]},
+                            cov("U4", "U4_MZI", "F_Measure", 4000, init="U4_MZIInit", over=MZI_OVER), cov("U4", "U4_ScriptsBS", "F_Op", 2500, depth=2, over={"PolGates": "None", "CompGates": "BS_Gates", "FockGates": "PS_Gates", "CustomOps2": "None", "CustomOps3": "None", "Kraus1": "None", "Kraus2": "None"})]},
         actions={"opn", "op1", "measure"},
         exhaustive={"quick": [("U4", 3, "Fam_C11")], "thorough": [("U4", 4, "Fam_C11")]},
         ex_init={"U4": "U4_ExInit"},
@@ -123,10 +123,12 @@ REPLAY_PLANS = {
 }
 
 REPLAY_PLANS["C15"] = dict(
-    cover={"quick": [cov("U1", "U1_ScriptsQ", "F_Op", 200, ops="R"), cov("U2", "U2_ScriptsQ", "F_Op", 160, ops="R"),
-                     cov("U4", "U4_ScriptsOps", "F_Op", 200, ops="R", init="U4_OpsInit")],
-           "thorough": [cov("U1", "U1_Scripts", "F_Op", 2000, ops="R"), cov("U2", "U2_Scripts", "F_Op", 2000, ops="R"),
-                        cov("U4", "U4_ScriptsOps", "F_Op", 1500, ops="R", init="U4_OpsInit", depth=2), cov("U3", "U3_Scripts", "F_Op", 1000, ops="R")]},
+    # (the scripts use gates outside the restricted sets, so the cover runs with all operator kinds; the world still
+    #  keeps ONE Operation object per (type, parameters, operand kinds))
+    cover={"quick": [cov("U1", "U1_ScriptsQ", "F_Op", 200), cov("U2", "U2_ScriptsQ", "F_Op", 160),
+                     cov("U4", "U4_ScriptsOps", "F_Op", 200, init="U4_OpsInit")],
+           "thorough": [cov("U1", "U1_Scripts", "F_Op", 2000), cov("U2", "U2_Scripts", "F_Op", 2000),
+                        cov("U4", "U4_ScriptsOps", "F_Op", 1500, init="U4_OpsInit", depth=2), cov("U3", "U3_Scripts", "F_Op", 1000)]},
     actions={"op1", "opn", "opk"},
     env={"VERIF_REUSE_OPS": "1"}, claims_actions=True,
     exhaustive={"quick": [("U1", 3, "Fam_C01")], "thorough": [("U1", 4, "Fam_C01")]},
